@@ -74,6 +74,9 @@ func genStorageRing(g *gen) {
 			rel = -int64(g.intn(200)) * 1000
 		}
 		g.emit("S commit %s %s %s 0 %d %d %d", c, grp, t, off, order, rel)
+		if g.chance(1, 5) {
+			g.emit("S status %s %s %08x %d %d", c, grp, math.Float32bits([]float32{0, 0.5, 1.0}[g.intn(3)]), g.pick(0, 0, 1, 5), g.intn(2))
+		}
 		if g.chance(1, 6) {
 			broker += g.pick(0, 1, 5, 50)
 			g.emit("S broker %s %s 0 %d %d 1", c, t, nparts, broker)
@@ -120,6 +123,9 @@ func genStorageGeneral(g *gen) {
 			}
 			for _, gr := range stGroups {
 				g.emit("S consumer %s %s", c, hexName(gr))
+				if g.chance(1, 3) {
+					g.emit("S status %s %s %08x %d %d", c, hexName(gr), math.Float32bits([]float32{0, 0.3, 0.5, 1.0}[g.intn(4)]), g.pick(0, 0, 1, 5, 100), g.intn(2))
+				}
 			}
 			g.emit("S consumers %s", c)
 		}
@@ -187,8 +193,10 @@ func genStorageGeneral(g *gen) {
 			fetchAll()
 		case x < 85:
 			g.emit("S shift %d", g.pick(500, 1000, 2000, 4000, 5000, 3600000, 3595000))
-		case x < 93:
+		case x < 89:
 			g.emit("S consumer %s %s", pickCluster(), pickGroup())
+		case x < 93:
+			g.emit("S status %s %s %08x %d %d", pickCluster(), pickGroup(), math.Float32bits([]float32{0, 0.3, 0.5, 1.0}[g.intn(4)]), g.pick(0, 0, 1, 5, 100), g.intn(2))
 		case x < 95:
 			g.emit("S consumers %s", pickCluster())
 		case x < 97:
@@ -207,6 +215,55 @@ func genStorageGeneral(g *gen) {
 type storageRunner struct {
 	st          *verifhook.Storage
 	allow, deny *regexp.Regexp
+	app         *protocol.ApplicationContext
+}
+
+// serve answers storage requests arriving on the application's storage channel (as the storage
+// coordinator would) by executing them synchronously on the current storage module.
+func (s *storageRunner) serve() {
+	for req := range s.app.StorageChannel {
+		func() {
+			defer func() {
+				if r := recover(); r != nil && req.Reply != nil {
+					func() {
+						defer func() { _ = recover() }()
+						close(req.Reply)
+					}()
+				}
+			}()
+			s.st.Handle(req)
+		}()
+	}
+}
+
+func showStatusOffset(c *protocol.ConsumerOffset) string {
+	if c == nil {
+		return "nil"
+	}
+	l := "-"
+	if c.Lag != nil {
+		l = strconv.FormatUint(c.Lag.Value, 10)
+	}
+	return fmt.Sprintf("%d:%d:%s", c.Offset, c.Timestamp, l)
+}
+
+func renderGroupStatus(st *protocol.ConsumerGroupStatus) string {
+	var parts []string
+	for _, p := range st.Partitions {
+		parts = append(parts, fmt.Sprintf("%s/%d/%d/%d/%08x/%s/%s/%s/%s", hexName(p.Topic), p.Partition, int(p.Status), p.CurrentLag,
+			math.Float32bits(p.Complete), showStatusOffset(p.Start), showStatusOffset(p.End), hexName(p.Owner), hexName(p.ClientID)))
+	}
+	sort.Strings(parts)
+	ps := "-"
+	if len(parts) > 0 {
+		ps = strings.Join(parts, ",")
+	}
+	maxlag := "-"
+	if st.Maxlag != nil {
+		maxlag = strconv.FormatUint(st.Maxlag.CurrentLag, 10)
+	}
+	return fmt.Sprintf("gs=%d complete=%08x count=%d total=%d maxlag=%s parts=%s", int(st.Status), math.Float32bits(st.Complete),
+		st.TotalPartitions, st.TotalLag, maxlag, ps)
 }
 
 func sortedHexList(xs []string) string {
@@ -421,6 +478,27 @@ func (s *storageRunner) step(r *runner, line string) {
 		default:
 			r.reply("offs=%s", fmtInts(reply.([]int64)))
 		}
+	case "status":
+		// S status <cluster> <group> <minbits> <allowed> <showall>: a fresh evaluator (empty cache) on the current storage
+		bits, _ := strconv.ParseUint(f[4], 16, 32)
+		allowed, _ := strconv.ParseUint(f[5], 10, 64)
+		ev, err := verifhook.NewEvaluator(s.app, 10, math.Float32frombits(uint32(bits)), allowed)
+		if err != nil {
+			r.resolve("%s", line)
+			r.reply("bad-op")
+			return
+		}
+		now := stableNow()
+		req := &protocol.EvaluatorRequest{Cluster: unhexName(f[2]), Group: unhexName(f[3]), ShowAll: f[6] == "1", Reply: make(chan *protocol.ConsumerGroupStatus, 1)}
+		res := guard(func() string {
+			ev.GetConsumerStatus(req)
+			return renderGroupStatus(<-req.Reply)
+		})
+		if time.Now().Unix() != now {
+			res += " tick"
+		}
+		r.resolve("S status %d %s %s %s %s %s", now, f[2], f[3], f[4], f[5], f[6])
+		r.reply("%s", res)
 	case "consumer":
 		now := stableNow()
 		reply, p := s.fetch(&protocol.StorageRequest{RequestType: protocol.StorageFetchConsumer, Cluster: unhexName(f[2]), Group: unhexName(f[3])})
@@ -444,7 +522,8 @@ func (s *storageRunner) step(r *runner, line string) {
 }
 
 func runStorage(r *runner) {
-	s := &storageRunner{}
+	s := &storageRunner{app: &protocol.ApplicationContext{StorageChannel: make(chan *protocol.StorageRequest)}}
+	go s.serve()
 	for {
 		line, ok := r.next()
 		if !ok {
